@@ -138,10 +138,11 @@ def vectors(names, rng, limit):
             allv.append(list(a))
     kws = []
     for pat in itertools.product((0, 1, 2), repeat=n):
-        for unk in (0, 1):
+        for unk in (0, 1, 2, 3):
             kw = [(names[i], "k" if p == 1 else None) for i, p in enumerate(pat) if p]
             if unk:
-                kw.append(("zz", "k"))
+                # an unknown keyword: with a value, with None, or named like suds' own reserved keywords
+                kw.append({1: ("zz", "k"), 2: ("zz", None), 3: ("__zz", "k")}[unk])
             kws.append(kw)
     total = len(allv) * len(kws)
     if total <= limit:
